@@ -122,6 +122,51 @@ class World:
                 return i
         return 7
 
+    def kind(self, o):
+        """class number as in Spec.ValueSem (Scalars.kind) of a non-sequence object"""
+        C = self.C
+        if isinstance(o, C.CBlock):
+            return 7
+        for i, cls in enumerate((C.COutPoint, C.CTxIn, C.CTxOut, C.CTxInWitness, C.CTxWitness, C.CTransaction,
+                                 C.CBlockHeader)):
+            if isinstance(o, cls):
+                return i
+        return -1
+
+    def resolve_k(self, t):
+        """the object at a target and its class number; a sequence is classified by the attribute it is found
+        under (vin 8, vout 9, vtxinwit 10, vtx 11)"""
+        C = self.C
+        r, path = t
+        if r >= len(self.names) or self.names[r] is None:
+            raise BadRef()
+        o = self.names[r]
+        k = self.kind(o)
+        for i in path:
+            ks = self.kids(o)
+            if i >= len(ks):
+                raise BadRef()
+            child = ks[i]
+            if self.is_seq(child):
+                k = ({0: 8, 1: 9}.get(i, -1) if isinstance(o, C.CTransaction) else
+                     10 if isinstance(o, C.CTxWitness) else 11 if isinstance(o, C.CBlock) else -1)
+            else:
+                k = self.kind(child)
+            o = child
+        return o, k
+
+    def ref_attrs(self, o):
+        C = self.C
+        if isinstance(o, C.CTransaction):
+            return ['vin', 'vout', 'wit']
+        if isinstance(o, C.CTxIn):
+            return ['prevout']
+        if isinstance(o, C.CTxWitness):
+            return ['vtxinwit']
+        if isinstance(o, C.CBlock):
+            return ['vtx']
+        return []
+
     def is_seq(self, o):
         return isinstance(o, (list, tuple))
 
@@ -282,6 +327,59 @@ class World:
                 return 'done', None
             self.verify(tx, int(w[2]), w[3])
             return 'done', None
+        if k == 'setref':
+            o, _ = self.resolve_k(p_target(w[1]))
+            src, ksrc = self.resolve_k(p_target(w[3]))
+            slot = int(w[2])
+            if self.is_seq(o):
+                return 'na', None
+            if slot >= len(self.kids(o)):
+                return 'na', None
+            _, kcur = self.resolve_k((p_target(w[1])[0], p_target(w[1])[1] + [slot]))
+            if kcur != ksrc:
+                return 'na', None
+            setattr(o, self.ref_attrs(o)[slot], src)
+            return 'done', None
+        if k == 'setprev':
+            o = self.resolve(p_target(w[1]))
+            if not isinstance(o, C.CTxIn):
+                return 'na', None
+            h, n = w[2].split(',')
+            o.prevout = C.CMutableOutPoint(bytes.fromhex(h), int(n))
+            return 'done', None
+        if k in ('appref', 'repref'):
+            lst, kl = self.resolve_k(p_target(w[1]))
+            src, ksrc = self.resolve_k(p_target(w[3 if k == 'repref' else 2]))
+            ek = {8: 1, 9: 2}.get(kl)
+            if ek is None or ksrc != ek:
+                return 'na', None
+            if k == 'appref':
+                lst.append(src)
+            else:
+                lst[int(w[2])] = src
+            return 'done', None
+        if k == 'newtxfrom':
+            vin, kvi = self.resolve_k(p_target(w[1]))
+            vout, kvo = self.resolve_k(p_target(w[2]))
+            wit, kw = (None, 4) if w[5] == '-' else self.resolve_k(p_target(w[5]))
+            if kvi != 8 or kvo != 9:
+                return 'na', None
+            if kw != 4:
+                return 'na', None
+            if wit is None:
+                return 'created', C.CMutableTransaction(vin, vout, int(w[3]), int(w[4]))
+            return 'created', C.CMutableTransaction(vin, vout, int(w[3]), int(w[4]), wit)
+        if k == 'newtxd':
+            vin, vout = p_list(w[3], p_txin), p_list(w[4], p_txout)
+            return 'created', C.CMutableTransaction([self.m_in(i) for i in vin], [self.m_out(x) for x in vout],
+                                                    int(w[2]), int(w[1]))
+        if k == 'newin':
+            if w[1] == '-':
+                return 'created', C.CMutableTxIn(None, SC.CScript(bytes.fromhex(w[2])), int(w[3]))
+            pr = self.resolve(p_target(w[1]))
+            if self.kind(pr) != 0:
+                return 'na', None
+            return 'created', C.CMutableTxIn(pr, SC.CScript(bytes.fromhex(w[2])), int(w[3]))
         raise ValueError('unknown op ' + op)
 
     def verify(self, tx, in_idx, calls):
@@ -523,6 +621,10 @@ class Gen:
 
     def new_tx(self, mutable=True, **kw):
         t = self.tx(**kw)
+        if mutable and self.rng.random() < 0.3:       # the default witness=None constructor path
+            return self.emit('newtxd %d %d %s %s' % (t['ver'], t['lock'], '|'.join(s_txin(i) for i in t['vin']),
+                                                     '|'.join(s_txout(o) for o in t['vout'])),
+                             dict(kind='tx', mut=True, nin=len(t['vin']), nout=len(t['vout'])))
         return self.emit(('newtx ' if mutable else 'newctx ') + s_tx(t),
                          dict(kind='tx', mut=mutable, nin=len(t['vin']), nout=len(t['vout'])))
 
@@ -563,6 +665,8 @@ class Gen:
         if u is None or k < 0.07:
             return self.new_tx(mutable=r.random() < 0.8)
         rt = self.roots[u]
+        if r.random() < 0.22:
+            return self.alias_op()
         if k < 0.17:       # snapshot / mutable copy of a root or a part
             ts, path = self.target(u)
             sk = self.sub_kind(rt, path)
@@ -655,6 +759,93 @@ class Gen:
             return self.emit('eq %s %s' % (ts, ts2))
         return self.emit('%s %s' % (e, ts))
 
+    def tx_part(self, kinds):
+        """a target of one of the given part kinds ('vin','vout','wit','in','op','out') below some tx root"""
+        r = self.rng
+        t = self.any_tx()
+        if t is None:
+            return None
+        rt = self.roots[t]
+        kd = r.choice(kinds)
+        if kd == 'vin':
+            return '%d.0' % t
+        if kd == 'vout':
+            return '%d.1' % t
+        if kd == 'wit':
+            return '%d.2' % t
+        if kd == 'in':
+            return '%d.0.%d' % (t, r.randrange(max(rt['nin'], 1)))
+        if kd == 'op':
+            return '%d.0.%d.0' % (t, r.randrange(max(rt['nin'], 1)))
+        return '%d.1.%d' % (t, r.randrange(max(rt['nout'], 1)))
+
+    def alias_op(self):
+        """operations whose argument is a reference to an existing object (audit F4)"""
+        r = self.rng
+        t = self.any_tx()
+        if t is None:
+            return self.new_tx()
+        rt = self.roots[t]
+        e = r.choice(('setref-vin', 'setref-vout', 'setref-wit', 'setref-prev', 'appref-in', 'appref-out', 'repref-in',
+                      'repref-out', 'newtxfrom', 'newtxfrom-d', 'newtxd', 'newin', 'newin-none', 'setprev', 'mismatch'))
+        if e == 'setref-vin':
+            src = self.tx_part(('vin',))
+            o = self.roots[int(src.split('.')[0])]
+            if rt['mut']:
+                rt['nin'] = o['nin']
+            return self.emit('setref %d 0 %s' % (t, src))
+        if e == 'setref-vout':
+            src = self.tx_part(('vout',))
+            o = self.roots[int(src.split('.')[0])]
+            if rt['mut']:
+                rt['nout'] = o['nout']
+            return self.emit('setref %d 1 %s' % (t, src))
+        if e == 'setref-wit':
+            return self.emit('setref %d 2 %s' % (t, self.tx_part(('wit',))))
+        if e == 'setref-prev':
+            src = self.tx_part(('op',))
+            pool = [i for i, x in enumerate(self.roots) if x is not None and x['kind'] == 'op']
+            if pool and r.random() < 0.4:
+                src = str(r.choice(pool))
+            return self.emit('setref %s 0 %s' % (self.tx_part(('in',)), src))
+        if e in ('appref-in', 'appref-out'):
+            part = 'in' if e == 'appref-in' else 'out'
+            src = self.tx_part((part,))
+            pool = [i for i, x in enumerate(self.roots) if x is not None and x['kind'] == ('txin' if part == 'in' else 'txout')]
+            if pool and r.random() < 0.4:
+                src = str(r.choice(pool))
+            if rt['mut']:
+                rt['nin' if part == 'in' else 'nout'] += 1
+            return self.emit('appref %d.%d %s' % (t, 0 if part == 'in' else 1, src))
+        if e in ('repref-in', 'repref-out'):
+            part = 'in' if e == 'repref-in' else 'out'
+            n = rt['nin' if part == 'in' else 'nout']
+            i = r.randrange(n + 1) if r.random() < 0.15 else r.randrange(max(n, 1))
+            return self.emit('repref %d.%d %d %s' % (t, 0 if part == 'in' else 1, i, self.tx_part((part,))))
+        if e in ('newtxfrom', 'newtxfrom-d'):
+            vi, vo = self.tx_part(('vin',)), self.tx_part(('vout',))
+            w = '-' if e == 'newtxfrom-d' else self.tx_part(('wit',))
+            a, b = self.roots[int(vi.split('.')[0])], self.roots[int(vo.split('.')[0])]
+            return self.emit('newtxfrom %s %s %d %d %s' % (vi, vo, self.u32(r.random() < 0.05), self.version(), w),
+                             dict(kind='tx', mut=True, nin=a['nin'], nout=b['nout']))
+        if e == 'newtxd':
+            tv = self.tx()
+            return self.emit('newtxd %d %d %s %s' % (tv['ver'], tv['lock'], '|'.join(s_txin(i) for i in tv['vin']),
+                                                     '|'.join(s_txout(o) for o in tv['vout'])),
+                             dict(kind='tx', mut=True, nin=len(tv['vin']), nout=len(tv['vout'])))
+        if e == 'newin':
+            return self.emit('newin %s %s %d' % (self.tx_part(('op',)), hx(self.script()), self.u32(r.random() < 0.05)),
+                             dict(kind='txin', mut=True))
+        if e == 'newin-none':
+            return self.emit('newin - %s %d' % (hx(self.script()), self.u32()), dict(kind='txin', mut=True))
+        if e == 'setprev':
+            return self.emit('setprev %s %s,%d' % (self.tx_part(('in',)), hx(self.h32(r.random() < 0.05)),
+                                                   self.u32(r.random() < 0.05)))
+        # a source of the wrong class: outside the catalogue on both sides ('na')
+        return self.emit(r.choice(('setref %d 0 %s' % (t, self.tx_part(('vout', 'wit', 'in'))),
+                                   'appref %d.0 %s' % (t, self.tx_part(('out', 'op', 'vin'))),
+                                   'setref %s 0 %s' % (self.tx_part(('in',)), self.tx_part(('in', 'out'))))))
+
     def history(self):
         return ';'.join(self.ops)
 
@@ -689,10 +880,59 @@ def directed(rng, pool, which):
             g.emit('sighash %d %s %d %d' % (a, hx(g.script(True)), idx, ht))
             g.emit('sighashw %d %d %d' % (a, idx, ht))
             g.emit('verify %d %d %s:%d' % (a, idx, hx(r.choice((b'\xac', b'\x21' + PK + b'\xac'))), ht))
-    else:               # block built from a mutable and an immutable transaction
+    elif which == 5:    # block built from a mutable and an immutable transaction
         a = g.new_tx(True, nin=nin, nout=nout)
         b = g.new_tx(False, nin=1, nout=1)
         g.emit('newblk %s %d,%d' % (s_hdr((2, g.h32(), bytes(32), 1, 2, 3)), a, b), dict(kind='blk', mut=False))
+    elif which == 6:    # alias the lists of two transactions, then from_tx, then edit through the alias, then sighash
+        a = g.new_tx(True, nin=nin, nout=max(nout, 2))
+        b = g.new_tx(True, nin=1, nout=1)
+        g.emit('setref %d 0 %d.0' % (b, a))
+        g.roots[b]['nin'] = nin
+        if r.random() < 0.5:
+            g.emit('setref %d 1 %d.1' % (b, a))
+            g.roots[b]['nout'] = g.roots[a]['nout']
+        g.emit('snap %d' % b, dict(g.roots[b], mut=False))
+        g.emit('mcopy %d' % b, dict(g.roots[b], mut=True))
+        g.emit('snap %d' % a, dict(g.roots[a], mut=False))
+        g.emit('sighash %d %s %d %d' % (b, hx(g.script(True)), r.randrange(nin), r.choice((1, 2, 3, 0x81, 0x83))))
+        g.emit('verify %d %d ac:%d' % (a, r.randrange(nin), r.choice((1, 2, 3))))
+    elif which == 7:    # alias an outpoint / an input between two transactions; constructor that keeps its arguments
+        a = g.new_tx(True, nin=nin, nout=max(nout, 2))
+        b = g.new_tx(True, nin=nin, nout=1)
+        g.emit('setref %d.0.0 0 %d.0.0.0' % (b, a))
+        g.emit('appref %d.0 %d.0.0' % (b, a))
+        g.roots[b]['nin'] += 1
+        g.emit('repref %d.1 0 %d.1.1' % (a, a))
+        c = g.emit('newtxfrom %d.0 %d.1 %d %d %s' % (a, b, g.u32(), g.version(), r.choice(('-', '%d.2' % a))),
+                   dict(kind='tx', mut=True, nin=nin, nout=1))
+        d = g.emit('newin %d.0.0.0 %s %d' % (a, hx(g.script()), g.u32()), dict(kind='txin', mut=True))
+        g.emit('appref %d.0 %d' % (c, d))
+        g.roots[a]['nin'] += 1
+        g.roots[c]['nin'] += 1
+        g.emit('snap %d' % c, dict(g.roots[c], mut=False))
+        g.emit('mcopy %d' % a, dict(g.roots[a], mut=True))
+        g.emit('set %d scriptSig %s' % (d, hx(g.script())))
+        g.emit('set %d.0 n %d' % (d, g.u32()))
+        g.emit('sighash %d %s 0 %d' % (c, hx(g.script(True)), r.choice((1, 2, 3, 0x81))))
+    else:               # the default witness (a list-backed CTxWitness), its cached hash, and witness replacement
+        tv = g.tx(nin=nin, nout=nout)
+        a = g.emit('newtxd %d %d %s %s' % (tv['ver'], tv['lock'], '|'.join(s_txin(i) for i in tv['vin']),
+                                           '|'.join(s_txout(o) for o in tv['vout'])),
+                   dict(kind='tx', mut=True, nin=nin, nout=nout))
+        g.emit('hash %d.2' % a)
+        g.emit('pyhash %d.2' % a)
+        b = g.emit('newtxfrom %d.0 %d.1 1 2 -' % (a, a), dict(kind='tx', mut=True, nin=nin, nout=nout))
+        g.emit('setwit %d %s' % (a, s_wit(g.witness(nin) or [[b'\x01']] * nin)))
+        g.emit('hash %d.2' % a)
+        g.emit('setref %d 2 %d.2' % (b, a))
+        g.emit('snap %d' % b, dict(g.roots[b], mut=False))
+        g.emit('setwit %d -' % a)
+        g.emit('addin %d %s' % (a, s_txin(g.txin())))
+        g.roots[a]['nin'] += 1
+        g.roots[b]['nin'] += 1
+        g.emit('hash %d.2' % b)
+        g.emit('txid %d' % b)
     # then: every kind of mutation on every mutable root, interleaved with random ops
     for u, rt in list(enumerate(g.roots)):
         if rt is None or not rt.get('mut'):
@@ -734,6 +974,7 @@ ALPHABET = [
     'setwit 0 1:07', 'setvin 1 ',
     'sighash 0 51 0 3', 'sighashw 0 0 1', 'verify 0 0 ac:1',
     'newblk ' + s_hdr((2, H32[0], H32[0], 1, 2, 3)) + ' 0',
+    'setref 1 0 0.0', 'appref 0.0 1.0.0', 'setref 1.0.0 0 0.0.0.0', 'newtxfrom 0.0 0.1 3 2 -',
 ]
 
 
@@ -747,7 +988,11 @@ class C09(Prop):
         'immutable_reach', 'cache_correct', 'no_shared_mutable', 'immutable_setattr_rejected',
         'immutable_delattr_rejected', 'sighash_preserves_heap', 'verify_preserves_heap', 'sighash_keeps_objects',
         'verify_keeps_objects', 'value_frame', 'value_frame_run', 'copy_unaffected',
-        'target_refines', 'target_refines_none')]
+        'target_refines', 'target_refines_none', 'heap_ident_eq_value', 'heap_pyhash_eq_value',
+        'inv_init_ext', 'inv_step_ext', 'inv_reachable_ext', 'cache_correct_ext', 'immutable_reach_ext',
+        'copy_fresh_ext', 'sighash_preserves_heap_ext', 'verify_preserves_heap_ext', 'heap_ident_eq_value_ext',
+        'immutable_setref_rejected_ext', 'immutable_slots_stable_ext', 'immutable_value_stable_ext',
+        'immutable_value_stable_run_ext', 'getHash_reflects_value_ext', 'ser_reflects_value_ext')]
     anchors = [('bitcoin/core/serialize.py', q) for q in (
         'Serializable.GetHash', 'Serializable.__eq__', 'Serializable.__hash__',
         'ImmutableSerializable.__setattr__', 'ImmutableSerializable.__delattr__', 'ImmutableSerializable.GetHash',
@@ -765,7 +1010,7 @@ class C09(Prop):
                     'Python hash() of bytes is a function of the bytes (64-bit collisions ignored)']
     assumptions = ['field values are of the types of Basic/Tx.lean (non-negative n/nSequence/nLockTime, ints, bytes)',
                    'objects are created and edited only through the catalogue (DESIGN §8 O1 is outside it)']
-    rule = ('histories: 6 directed aliasing templates with random values + random histories of 1..40 ops over the '
+    rule = ('histories: 9 directed aliasing templates with random values + random histories of 1..40 ops over the '
             'whole catalogue (boundary/mined field values incl. out-of-range ones); thorough: all histories of length '
             '<= 3 over a 31-op alphabet; after every step every live object is observed; non-trivial = at least one '
             'object created and one mutation/copy/sighash executed; distinct by history text')
@@ -786,12 +1031,12 @@ class C09(Prop):
         pool = list(self.pool)
         i = 0
         for rep in range(60 if big else 12):
-            for which in range(6):
+            for which in range(9):
                 i += 1
                 if i % nshards != shard:
                     continue
                 yield mk('c09.run', directed(rng, pool, which), tag='directed%d' % which)
-        for rep in range(6000 if big else 700):
+        for rep in range(6000 if big else 480):
             i += 1
             if i % nshards != shard:
                 continue
@@ -811,7 +1056,14 @@ class C09(Prop):
     def model_line(self, case):
         if VERBOSE:
             return '\t'.join(['c09.runv'] + list(case['args']))
-        return case.line
+        # c09.runc = c09.run plus the verdict of the model-internal cross-check heap model vs Spec.AliasSem
+        # (the T2 tie of the unproved `refines_alias_spec`)
+        return '\t'.join(['c09.runc'] + list(case['args']))
+
+    def agree(self, case, impl_out, model_out):
+        if VERBOSE:
+            return impl_out == model_out
+        return impl_out + '@@same' == model_out
 
     def impl(self, c):
         return run_history(self.mods, c['args'][0], VERBOSE)
@@ -836,6 +1088,8 @@ class C09(Prop):
                 yield mk('c09.run', ';'.join(cand), tag=c.get('tag', ''))
 
     def signature(self, c, io, mo):
+        if not mo.endswith('@@same') and '@@diff@' in mo and io == mo.split('@@')[0]:
+            return 'C09-model-vs-aliasspec'      # heap model and Spec.AliasSem disagree (not a defect of /repo)
         return None
 
 
@@ -873,8 +1127,27 @@ def drop_step(ops, k):
                 if k in ns:
                     return None
                 w[2] = ','.join(str(x - 1 if x > k else x) for x in ns)
-            elif kind in ('newtx', 'newctx', 'newhdr'):
+            elif kind in ('newtx', 'newctx', 'newhdr', 'newtxd'):
                 pass
+            elif kind in ('setref', 'repref'):
+                w[1] = _renumber_target(w[1], k)
+                w[3] = _renumber_target(w[3], k) if w[1] is not None else None
+                if w[3] is None:
+                    return None
+            elif kind == 'appref':
+                w[1] = _renumber_target(w[1], k)
+                w[2] = _renumber_target(w[2], k) if w[1] is not None else None
+                if w[2] is None:
+                    return None
+            elif kind == 'newtxfrom':
+                for j in (1, 2, 5):
+                    if w[j] != '-':
+                        w[j] = _renumber_target(w[j], k)
+                        if w[j] is None:
+                            return None
+            elif kind == 'newin':
+                if w[1] != '-':
+                    w[1] = _renumber_target(w[1], k)
             else:
                 w[1] = _renumber_target(w[1], k)
             if w[1] is None:
